@@ -132,9 +132,11 @@ P("C01", ["LC.Props.C01", "LC.Props.C01Range"], [MATCH, v2run("TestVerifC01")],
   "exact_range_proposed: for EVERY document D (>= q tokens) planted between contexts sharing no token with it, the q-gram join, "
   "density window, range fusion and claimed-token cut of the model propose exactly source [0,|D|) -> target [|pre|,|pre|+|D|) "
   "and never panic (under HashInj and scaleFloor n <= n); prefilter_contains, hashes_contains, score_exact(_conf): the "
-  "pre-filter cannot reject it and the score is distance 0, no trimming, confidence conf |D| 0 = 1.0. PARTIAL in one respect: "
-  "that no OTHER document's candidate displaces it in the overlap filter (NoDominator) is not proved (retain_unconflicted "
-  "covers the unconflicted case) and is established by the oracle on the real Match over every corpus document.",
+  "pre-filter cannot reject it and the score is distance 0, no trimming, confidence conf |D| 0 = 1.0. retain_not_dominated "
+  "states exactly when the overlap filter keeps a candidate (no earlier candidate inside its lines weighs more or overlaps it "
+  "other than by touching, no later candidate containing its lines weighs more). PARTIAL in one respect: that this NoDominator "
+  "condition holds for a planted copy depends on the corpus and is established by the oracle on the real Match over every "
+  "corpus document.",
   ["DiffSpec.equalInputs (go-diff returns one Equal segment for identical texts)", FLOAT,
    "NoDominator: no other corpus document approximately spans several planted copies (the oracle would show it)"], regen=ALLGEN)
 
@@ -168,9 +170,12 @@ P("C04", ["LC.Props.C04"], [MATCH, v2run("TestVerifC04", xproc=True)],
   "includes the corpus documents that are textually identical to another one. distinct = input; non-trivial = has matches",
   "sort_order_irrelevant / sorted_perm_unique: a sort under a strict total order has one result per multiset; matchLess_total: "
   "the (repaired) comparator is such an order; match_order_independent: the model's result is the same for every iteration "
-  "order of the corpus map; dict_roundtrip: ids and words stay in bijection. The comparator field orders the model mirrors are "
+  "order of the corpus map; match_equivariant: renaming the token ids by any injection (a differently ordered or separately built "
+  "dictionary) changes nothing, given that the diff library commutes with the renaming; dict_roundtrip: ids and words stay in "
+  "bijection. The comparator field orders the model mirrors are "
   "regenerated from the AST and compared (matchLess_fields_current, mrLess_fields_current).",
   [FLOAT, "key uniqueness of joined ranges (hypothesis hk of mr_sort_order_irrelevant)",
+   "DiffSpec.crossOnly: go-diff depends on its inputs only through their equality pattern (hypothesis hd of match_equivariant)",
    "tracing and slice aliasing are run-time facts covered by the harness only"], regen=ALLGEN)
 
 P("C05", ["LC.Props.C05"], [TOK, v2run("TestVerifC05")],
